@@ -59,7 +59,7 @@ ANY_AGG_B = ("COVARIANCE", "CORRELATION", "L0", "L1", "L2", "LINF", "EQUAL")
 DOMAIN_ERRORS = (Exception,)
 C04_OPS = ("add_obs", "sort", "insert_chrono", "insert_at", "remove_list", "remove_obs", "remove_first",
            "remove_last", "extract", "span", "concat", "mod_n", "mod_pattern", "gt", "lt", "set_obs",
-           "fork_reverse", "fork_span", "edit_time", "slice", "pop_obs", "span_track", "sort_radix", "fork_concat", "fork_derived", "fork_simplify", "describe", "remove_by_time", "set_obs_list")
+           "fork_reverse", "fork_span", "edit_time", "slice", "pop_obs", "span_track", "sort_radix", "fork_concat", "fork_derived", "fork_simplify", "describe", "remove_by_time", "set_obs_list", "via")
 # steps a session may take whose track holds the same Obs object at two positions (the result of
 # t + t and the like, shared by design): everything that neither creates features nor edits an Obs
 DUP_SAFE_OPS = ("sort", "sort_radix", "remove_list", "remove_obs", "remove_first", "remove_last", "pop_obs",
@@ -550,6 +550,13 @@ class TrackWorld(World):
 
     def _g_set_obs_list(self, r, m):
         return {"obs": [self._gen_obs(r) for _ in range(r.choice([0, 1, 2, 5]))]}
+
+    def _g_via(self, r, m):
+        self.rtagc = getattr(self, "rtagc", 0) + 300
+        return {"kind": r.choice(["resample_t", "resample_s", "mul2", "pow", "make_odd", "make_even", "loop_add",
+                                  "increment_time", "set_order"]),
+                "delta": r.choice([1, 2, 0.5, 7]), "n": r.choice([2, 3, 5, 9]), "to": r.randrange(self.cfg["sessions"]),
+                "tag0": self.rtagc - 300}
 
     def _g_span_track(self, r, m):
         return {"other": r.randrange(self.cfg["sessions"])}
@@ -2022,6 +2029,124 @@ class TrackWorld(World):
         if (st.get("k") or 1) < 0:
             self.probe("slice_with_negative_step")
         self._derive(st, "t[%s:%s:%s]" % (st.get("i"), st.get("j"), st.get("k")), lambda: t[sl], exp, m)
+
+    def _adopt_all(self, t, tag0):
+        """Model of a track another subsystem of the library produced (resampling, the * and **
+        operators, loop, incrementTime): everything is read from the real object -- what those
+        subsystems compute is not judged here -- and judged from the next step on.  None when the
+        track cannot be read consistently."""
+        try:
+            names = list(t.getListAnalyticalFeatures())
+            cols = {nm: list(t.getAnalyticalFeature(nm)) for nm in names}
+            obs = []
+            for i in range(t.size()):
+                ro = t.getObs(i)
+                ts = ro.timestamp
+                f = [ts.year, ts.month, ts.day, ts.hour, ts.min, ts.sec, ts.ms]
+                _dt.datetime(f[0], f[1], f[2], f[3], f[4], f[5])
+                if not all(isinstance(v, int) for v in f) or not 0 <= f[6] <= 999:
+                    return None
+                if len(ro.features) < len(names):
+                    return None
+                obs.append({"x": ro.position.getX(), "y": ro.position.getY(), "z": ro.position.getZ(), "t": f,
+                            "f": {nm: cols[nm][i] for nm in names}})
+        except Exception:  # noqa: BLE001
+            return None
+        m = {"obs": obs, "names": [nm for nm in names], "fresh": {}, "geo": 0}
+        if any(len(t.getObs(i).features) > len(names) for i in range(t.size())):
+            m["loose_rows"] = True
+        if any(nm.startswith("#") for nm in names) or any(nm in ("ds",) for nm in names):
+            return None
+        self._retag(t, m, tag0)
+        return m
+
+    def op_via(self, st):
+        """The track goes through another subsystem of the library and comes back (or a new
+        track comes out of it): resampling in place, t * 2, t ** n, makeOdd / makeEven, loop,
+        incrementTime, setOrder.  Its new state is adopted; the source of a fork and every other
+        session must be what they were; later steps are judged as usual."""
+        t, m = self._sess(st)
+        n = len(m["obs"])
+        k, s, to = st["kind"], st.get("s", 0), st["to"]
+        if m.get("dup_obs") or m.get("loose_rows"):
+            raise Skip()
+        if k in ("make_odd", "make_even"):
+            if n == 0:
+                raise Skip()
+            drop = (n % 2 == 0) if k == "make_odd" else (n % 2 == 1)
+            _, exc = self.call(t.makeOdd if k == "make_odd" else t.makeEven)
+            if exc is not None:
+                return self._unexpected("C04", exc, k)
+            if drop:
+                m["obs"].pop()
+                m["geo"] += 1
+            self._check_all("C04", "%s (the last observation goes when the size has the other parity)" % k)
+            return
+        if k == "set_order":
+            if n == 0:
+                raise Skip()
+            _, exc = self.call(t.setOrder)
+            if exc is not None:
+                return self._unexpected("C01", exc, "setOrder")
+            if "order" not in m["names"]:
+                self._setcol(m, "order", list(range(n)))
+            self._check_all("C01", "setOrder (feature 'order' = rank, created once)")
+            return
+        if n < 2 or not self._sorted(m):
+            raise Skip()
+        fork = k in ("mul2", "pow")
+        if k == "resample_t":
+            ts = [abs_seconds(o["t"]) for o in m["obs"]]
+            if any(ts[i] >= ts[i + 1] for i in range(n - 1)) or (ts[-1] - ts[0]) / st["delta"] > 60:
+                raise Skip()            # strictly increasing timestamps; at most 60 instants come out
+            rv, exc = self.call(t.resample, st["delta"], 1, 2)
+        elif k == "resample_s":
+            if self._def_abs_curv(m)[-1] / st["delta"] > 60:
+                raise Skip()            # (a leg of 4 000 km resampled every 50 cm is not a step of a simulation)
+            rv, exc = self.call(t.resample, st["delta"], 1, 1)
+        elif k == "mul2":
+            if self._def_abs_curv(m)[-1] <= 0:
+                raise Skip()            # (a track of zero length resampled in space never ends: C05's domain)
+            rv, exc = self.call(t.__mul__, 2)
+        elif k == "pow":
+            ts = [abs_seconds(o["t"]) for o in m["obs"]]
+            if any(ts[i] >= ts[i + 1] for i in range(n - 1)):
+                raise Skip()            # (zero duration resampled in time never ends: C05's domain)
+            rv, exc = self.call(t.__pow__, st["n"])
+        elif k == "loop_add":
+            rv, exc = self.call(t.loop, True)
+        else:
+            rv, exc = self.call(t.incrementTime, 1, 0)
+        if exc is not None:
+            # whether those subsystems accept this geometry / these timestamps is not judged;
+            # when they refuse, nothing may have changed -- unless the call works in place
+            if fork:
+                self._check_all("C04", "%s refused (the source must be unchanged)" % k)
+                return "domain"
+            self.real.pop(s, None)
+            self.model.pop(s, None)
+            self.derived.pop(s, None)
+            return "domain"
+        target = rv if fork else t
+        if target is None or not hasattr(target, "getObs"):
+            raise Skip()
+        nm = self._adopt_all(target, st.get("tag0", 10 ** 6))
+        dest = to if fork else s
+        if fork:
+            self._check_all("C04", "%s (the source track must be unchanged)" % k)
+            if self.violations:
+                return
+        if nm is None:
+            self.real.pop(dest, None)
+            self.model.pop(dest, None)
+            self.derived.pop(dest, None)
+            self.probe("track_from_another_subsystem_not_adoptable")
+            return
+        nm["geo"] = m["geo"] + 1
+        self.real[dest], self.model[dest] = target, nm
+        self.derived.pop(dest, None)
+        self.probe("track_went_through_another_subsystem")
+        self._check_all("C04", "%s (adopted)" % k)
 
     def op_describe(self, st):
         """Printing and summarising a track are read-only."""
